@@ -1036,6 +1036,16 @@ func (e *Engine) verify(fn *ssa.Function, opts VerifyOpts) (u *Unit) {
 				}
 			}
 		}
+		// a loop over a reflect map iterator: at a return from the body the position is the current index, after the
+		// loop it is the length; `$idxN + 1` reads as for a range loop
+		if _, have := penv.vars[name]; !have {
+			if itv := fr.mapIterOfLoop(h); itv != nil {
+				if iv, ok := fr.vals[itv]; ok && iv.K == vTerm {
+					u.ghostSort["miter_pos"] = "(Array Ref Int)"
+					penv.vars[name] = term(fmt.Sprintf("(- (select %s %s) 1)", u.ghostOf(exit, "miter_pos"), iv.T), types.Typ[types.Int])
+				}
+			}
+		}
 		// a range loop that has become a counting loop: the range index is counter - 1
 		if _, have := penv.vars[name]; !have {
 			if cs := fr.countingPhis(h); len(cs) == 1 {
